@@ -4,6 +4,15 @@ SIM_NOTE = ("trusted base: the behavioural nRF24L01+ simulator (vlib/sim, self-t
             "driver; chip assumptions (a)-(e) of DESIGN.md 2.6")
 
 CHECKS = [
+    {"property_id": "C13", "level": "fault_enumeration",
+     "text": "every (route length 1..8, direction, message type class, fault position) combination is enumerated: no fault, every "
+             "attempt of the data frame at hop i lost, every attempt of the NETWORK_ACK relay at hop j lost, the first k attempts of "
+             "the origin's frame lost with a route_timeout sweep, and a second acknowledged message relayed by the waiting sender; "
+             "Hypothesis draws routes over the whole address space, types 0..255, timeouts, MCU timing models, bystanders and faults "
+             "beyond it; originators and addressees of type-193 frames, the arrival time of the NETWORK_ACK at the origin's chip and "
+             "the duration of write() are taken from the medium's ground-truth log",
+     "design_ref": "4/C13", "note": SIM_NOTE + "; arrivals within +-(2 ms + 40 SPI transactions) of the deadline are labelled ambiguous and not judged",
+     "technique": "fault-position enumeration + Hypothesis-generated routes/timeouts on the multi-node simulation, oracle from the ground-truth air log"},
     {"property_id": "C05", "level": "exploration",
      "text": "Hypothesis-generated scenarios: a drawn parent-closed topology of 2..12 nodes (depth <= 4, full and routing-only "
              "nodes), every node running its own update() loop as a task on its own simulated radio with a drawn MCU timing model, "
